@@ -1287,6 +1287,52 @@ theorem limitRows_sublist {α : Type} (off lim : Option Nat) (rows : List α) :
   · exact List.drop_sublist _ _
   · exact (List.take_sublist _ _).trans (List.drop_sublist _ _)
 
+/-! ### the listed final table and the reported (LIMIT / OFFSET) groups -/
+
+theorem mapM_some_mem {α β : Type} (f : α → Option β) : ∀ (l : List α) (rs : List β),
+    l.mapM f = some rs → ∀ r ∈ rs, ∃ a ∈ l, f a = some r := by
+  intro l
+  induction l with
+  | nil => intro rs h r hr; simp at h; subst h; cases hr
+  | cons a l ih =>
+    intro rs h r hr
+    simp only [List.mapM_cons] at h
+    cases hfa : f a with
+    | none => rw [hfa] at h; cases h
+    | some b =>
+      rw [hfa] at h
+      cases hl : l.mapM f with
+      | none => rw [hl] at h; cases h
+      | some bs =>
+        rw [hl] at h
+        have : rs = b :: bs := by
+          simpa [bind, Option.bind, pure] using h.symm
+        subst this
+        simp only [List.mem_cons] at hr
+        rcases hr with rfl | hr
+        · exact ⟨a, by simp, hfa⟩
+        · obtain ⟨a', ha', hf'⟩ := ih bs hl r hr
+          exact ⟨a', by simp [ha'], hf'⟩
+
+theorem runFlows_nodup_keys (p : Plan) (flows : List (List TRow)) : (runFlows p flows).keys.Nodup := by
+  unfold runFlows
+  rw [coordinate_eq_gfold]
+  exact nodup_keys_gfold _ _ _ [] List.nodup_nil
+
+/-- every row of the listed final table is the canonical report of its key -/
+theorem finalTable_report (p : Plan) (t : AList Key) (hn : t.keys.Nodup) {rows : List (Key × List Out)}
+    (h : finalTable p t = some rows) : ∀ e ∈ rows, reportAt p t e.1 = some e.2 := by
+  intro e he
+  obtain ⟨a, ha, hfa⟩ := mapM_some_mem _ _ _ h e he
+  obtain ⟨k, sts⟩ := a
+  simp only [List.mem_filter] at ha
+  cases ho : outRow p sts with
+  | none => simp [ho] at hfa
+  | some o =>
+    simp only [ho, Option.map_some, Option.some.injEq] at hfa
+    subst hfa
+    simp only [reportAt, ha.2, if_true, AList.get_of_mem t hn ha.1, Option.bind_some, ho]
+
 /-! ### `AggState::merge` as a commutative semigroup (COUNT UNIQUE up to set equality) -/
 
 def St.kind : St → Nat
